@@ -81,7 +81,8 @@ fn emit<W: Write>(out: &mut W, id: usize, bytes: &[u8], strip: usize) {
     writeln!(out, "{}|=>|{}", input, res).unwrap();
 }
 
-const LINES: [&[u8]; 78] = [b"--- a/f\n", b"+++ b/f\n", b"--- /dev/null\n", b"+++ /dev/null\n", b"--- \"a b\"\n", b"+++ \"q\\142\\n\"\n", b"--- a/f\t2020-01-01 00:00\n",
+const LINES: [&[u8]; 92] = [b"--- \"/dev/null\"\n", b"+++ \"a\\a\\b\\f\\v\"\n", b"--- \"a\\q\"\n", b"+++ \"\\9\"\n", b"--- \"\\400\"\n", b"--- \"abc\n", b"+++ \"x\\", b"index 12..zz\n", b"old mode 10064x\n", b"new file mode 99999999\n", b"deleted file mode 1006\n", b"rename from \n", b"@@ -1,2 +1,2 @@ \xff\n", b"--- \"\\1\"\n",
+ b"--- a/f\n", b"+++ b/f\n", b"--- /dev/null\n", b"+++ /dev/null\n", b"--- \"a b\"\n", b"+++ \"q\\142\\n\"\n", b"--- a/f\t2020-01-01 00:00\n",
  b"diff --git a/f b/f\n", b"diff --git a/x b/y\n", b"index 123abc..def456 100644\n", b"index 1..2\n", b"index zz..1\n", b"old mode 100644\n", b"new mode 100755\n",
  b"new mode 1234\n", b"deleted file mode 100644\n", b"new file mode 100644\n", b"rename from x\n", b"rename to y\n", b"copy from x\n", b"copy to y\n", b"GIT binary patch\n",
  b"similarity index 100%\n", b"garbage\n", b"\n", b"@@ -1,2 +1,2 @@\n", b"@@ -1 +1 @@ fn\n", b"@@ -0,0 +1,2 @@\n", b"@@ -1,2 +0,0 @@\n", b"@@ -3,0 +4,1 @@\n", b"@@ -1,1 +1,1 @\n", b"@@ -1,1 +1,1 @@x\n",
